@@ -560,3 +560,136 @@ Proof.
   apply app_eq_len in H as [Hf H]; [|rewrite !le_bytes_length; reflexivity].
   congruence.
 Qed.
+
+(* ================================================================ sorted lists are fixed points of the sort *)
+Lemma isort_by_sorted : forall {A} le (l : list (N * A)),
+  StronglySorted (fun a b => le (fst a) (fst b) = true) l -> isort_by le l = l.
+Proof.
+  intros A le l H. induction H as [|x tl Hs IH Hf]; [reflexivity|].
+  cbn [isort_by]. rewrite IH. destruct tl as [|y tl']; [reflexivity|].
+  cbn [ins_by]. inv Hf. rewrite H1. reflexivity.
+Qed.
+Lemma sorted_map_fst : forall {A B} (f : A -> B) (R : list (N * A)) (P : N -> N -> Prop),
+  StronglySorted (fun a b => P (fst a) (fst b)) R ->
+  StronglySorted (fun a b => P (fst a) (fst b)) (map (fun p => (fst p, f (snd p))) R).
+Proof.
+  intros A B f R P H. induction H as [|x tl Hs IH Hf]; [constructor|].
+  cbn [map]. constructor; [exact IH|]. rewrite Forall_forall in *. intros y Hy.
+  apply in_map_iff in Hy as [z [<- Hz]]. cbn. apply Hf. exact Hz.
+Qed.
+Lemma sorted_weaken : forall {A} (P Q : A -> A -> Prop) l, (forall a b, P a b -> Q a b) ->
+  StronglySorted P l -> StronglySorted Q l.
+Proof.
+  intros A P Q l HPQ H. induction H; constructor; [assumption|].
+  eapply Forall_impl; [|eassumption]. intros; apply HPQ; assumption.
+Qed.
+
+(* ================================================================ well-formed logs (C06) *)
+Section WriterFacts.
+  Variable deser : bytes -> option entry.
+  Variable mac : bytes -> bytes.
+  Variable val_ok : bytes -> bool.
+  Variable dec_changes : bytes -> option (list change).
+  Variable deser_hdr : bytes -> option snaphdr.
+  Variable dec_map : bytes -> option state.
+  Variable ser : entry -> bytes.
+  Variable enc_changes : list change -> bytes.
+  Variable ser_hdr : snaphdr -> bytes.
+  Variable enc_map : state -> bytes.
+
+  (* the codec assumptions: decoding inverts encoding, encodings fit a u32 length *)
+  Hypothesis Hser : forall e, deser (ser e) = Some e.
+  Hypothesis Hser_small : forall e, small (ser e).
+  Hypothesis Hchg : forall cs, dec_changes (enc_changes cs) = Some cs.
+  Hypothesis Hhdr : forall h, deser_hdr (ser_hdr h) = Some h.
+  Hypothesis Hhdr_small : forall h, small (ser_hdr h).
+  Hypothesis Hmap : forall st, exists st', dec_map (enc_map st) = Some st' /\ st' ≈ st.
+
+  Notation verify := (verify mac).
+  Notation entry_changes := (entry_changes val_ok dec_changes).
+  Notation replay_frame := (replay_frame deser mac val_ok dec_changes).
+  Notation replay_file := (replay_file deser mac val_ok dec_changes).
+  Notation snap_valid := (snap_valid mac deser_hdr dec_map).
+  Notation load_snaps := (load_snaps mac deser_hdr dec_map).
+  Notation recover := (recover deser mac val_ok dec_changes deser_hdr dec_map).
+
+  Definition genuine (e : entry) : Prop := verify e = true /\ exists cs, entry_changes e = Some cs.
+  Definition eff (e : entry) : list change := match entry_changes e with Some cs => cs | None => [] end.
+  Definition effs (es : list entry) : list change := flat_map eff es.
+  Definition fbytes (es : list entry) : bytes := frames (map ser es).
+  Definition max_txid (c : N) (es : list entry) : N := fold_left (fun m e => N.max m (e_txid e)) es c.
+
+  Lemma small_sers : forall es, Forall small (map ser es).
+  Proof. intro es. apply Forall_forall. intros b Hb. apply in_map_iff in Hb as [e [<- _]]. apply Hser_small. Qed.
+
+  Lemma fold_replay_genuine : forall es st c s, Forall genuine es ->
+    sc (fold_left replay_frame (map ser es) (st, c, s)) = (apply_changes st (effs es), max_txid c es).
+  Proof.
+    induction es as [|e tl IH]; intros st c s Hg; [reflexivity|]. inv Hg.
+    destruct H1 as [Hv [cs Hc]]. cbn [map fold_left].
+    rewrite (replay_frame_accepted deser mac val_ok dec_changes (ser e) e cs st c s) by (repeat split; auto).
+    rewrite IH by assumption. unfold effs. cbn [flat_map]. unfold eff at 2. rewrite Hc.
+    rewrite apply_changes_app. reflexivity.
+  Qed.
+
+  Lemma replay_file_genuine : forall es t st c s, Forall genuine es -> (t = [] \/ torn t) ->
+    sc (replay_file (st, c, s) (fbytes es ++ t)) = (apply_changes st (effs es), max_txid c es).
+  Proof.
+    intros es t st c s Hg Ht. rewrite replay_file_sc. unfold fbytes.
+    destruct Ht as [-> | Ht].
+    - rewrite app_nil_r, parse_frames_exact by apply small_sers. cbn [fst]. apply fold_replay_genuine. exact Hg.
+    - rewrite parse_frames_torn by (auto using small_sers). cbn [fst]. apply fold_replay_genuine. exact Hg.
+  Qed.
+
+  Lemma max_txid_app : forall a b c, max_txid c (a ++ b) = max_txid (max_txid c a) b.
+  Proof. intros. unfold max_txid. apply fold_left_app. Qed.
+  Lemma effs_app : forall a b, effs (a ++ b) = effs a ++ effs b.
+  Proof. intros. unfold effs. apply flat_map_app. Qed.
+
+  Lemma fold_files_genuine : forall (Fs : list (list entry)) st c s, Forall genuine (concat Fs) ->
+    sc (fold_left replay_file (map fbytes Fs) (st, c, s)) =
+    (apply_changes st (effs (concat Fs)), max_txid c (concat Fs)).
+  Proof.
+    induction Fs as [|F tl IH]; intros st c s Hg; [reflexivity|].
+    cbn [concat] in Hg. apply Forall_app in Hg as [Hg1 Hg2]. cbn [map fold_left].
+    pose proof (replay_file_genuine F [] st c s Hg1 (or_introl eq_refl)) as H. rewrite app_nil_r in H.
+    destruct (replay_file (st, c, s) (fbytes F)) as [[st1 c1] s1]. cbn in H. inv H.
+    rewrite IH by assumption. cbn [concat]. rewrite effs_app, max_txid_app, apply_changes_app. reflexivity.
+  Qed.
+
+  (* shape of the log part of a disk the writer can leave behind *)
+  Definition rot_bytes (R : list (N * list entry)) : list (N * bytes) := map (fun p => (fst p, fbytes (snd p))) R.
+  Definition all_entries (R : list (N * list entry)) (ew : list entry) : list entry := concat (map snd R) ++ ew.
+  Definition LogShape (d : disk) (R : list (N * list entry)) (ew : list entry) (t : bytes) : Prop :=
+    d_rot d = rot_bytes R /\
+    StronglySorted (fun a b => fst a < fst b) R /\
+    d_wal d = Some (fbytes ew ++ t) /\ (t = [] \/ torn t) /\
+    Forall genuine (all_entries R ew).
+
+  Lemma rot_bytes_sorted : forall R, StronglySorted (fun a b => fst a < fst b) R -> sort_asc (rot_bytes R) = rot_bytes R.
+  Proof.
+    intros R H. unfold sort_asc. apply isort_by_sorted. unfold rot_bytes.
+    apply (sorted_map_fst fbytes R (fun a b => (a <=? b) = true)).
+    eapply sorted_weaken; [|exact H]. cbn. intros a b Hab. apply N.leb_le. lia.
+  Qed.
+
+  Lemma wal_files_shape : forall d R ew t, LogShape d R ew t ->
+    wal_files d = map fbytes (map snd R) ++ [fbytes ew ++ t].
+  Proof.
+    intros d R ew t [Hr [Hs [Hw _]]]. unfold wal_files. rewrite Hr, Hw, rot_bytes_sorted by assumption.
+    unfold rot_bytes. rewrite !map_map. reflexivity.
+  Qed.
+
+  Lemma replay_logs_shape : forall d R ew t st c s, LogShape d R ew t ->
+    sc (fold_left replay_file (wal_files d) (st, c, s)) =
+    (apply_changes st (effs (all_entries R ew)), max_txid c (all_entries R ew)).
+  Proof.
+    intros d R ew t st c s Hsh. rewrite (wal_files_shape d R ew t Hsh).
+    destruct Hsh as [_ [_ [_ [Ht Hg]]]]. unfold all_entries in *. apply Forall_app in Hg as [Hg1 Hg2].
+    rewrite fold_left_app. cbn [fold_left].
+    pose proof (fold_files_genuine (map snd R) st c s Hg1) as H.
+    destruct (fold_left replay_file (map fbytes (map snd R)) (st, c, s)) as [[st1 c1] s1]. cbn in H. inv H.
+    rewrite replay_file_genuine by assumption.
+    rewrite effs_app, max_txid_app, apply_changes_app. reflexivity.
+  Qed.
+End WriterFacts.
